@@ -37,6 +37,9 @@ func access(v reflect.Value) reflect.Value {
 
 func skipType(t reflect.Type) bool {
 	p := t.PkgPath()
+	if strings.HasSuffix(p, "zzverif/sync") && t.Name() == "Pool" {
+		return false // the shim pool's retained objects are part of the state
+	}
 	return p == "sync" || p == "sync/atomic" || strings.HasSuffix(p, "zzverif/sync") || strings.HasSuffix(p, "zzverif/atomic")
 }
 
